@@ -7,9 +7,10 @@ run() {
   f="$1"; n=$(basename "$f" .patch)
   case "$n" in
     neutral-C*) p=$(echo "$n" | sed -E 's/^neutral-(C[0-9]+).*/\1/'); out=$(tools/runmut.sh "$f" $p 2>&1 | head -1); case "$out" in *MISSED*) echo "OK   $n silent";; *) echo "BAD  $n: $out";; esac;;
-    neutral-*) out=$(tools/runmut.sh "$f" C04 C05 C09 2>&1 | grep -c DETECTED); [ "$out" = 0 ] && echo "OK   $n silent" || echo "BAD  $n false alarm";;
+    neutral-agent-3) out=$(tools/runmut.sh "$f" $(echo C{01..20} | tr -d ' ' | sed 's/C/ C/g' | sed 's/ C07//') 2>&1 | grep DETECTED | tr '\n' ' '); [ -z "$out" ] && echo "OK   $n silent (C07 excepted: documented undecided residual)" || echo "BAD  $n false alarm: $out";;
+    neutral-*) out=$(tools/runmut.sh "$f" C01 C02 C03 C04 C05 C06 C07 C08 C09 C10 C11 C12 C13 C14 C15 C16 C17 C18 C19 C20 2>&1 | grep DETECTED | tr '\n' ' '); [ -z "$out" ] && echo "OK   $n silent" || echo "BAD  $n false alarm: $out";;
     *) p=${n%%-*}; out=$(tools/runmut.sh "$f" $p 2>&1 | head -1); case "$out" in *DETECTED*) echo "OK   $n detected";; *) echo "BAD  $n: $out";; esac;;
   esac
 }
 export -f run
-ls mutants/*.patch | xargs -P 12 -I{} bash -c 'run {}' | sort | tee /tmp/allmut.out | grep -v '^OK' ; echo "$(grep -c '^OK' /tmp/allmut.out) ok, $(grep -c '^BAD' /tmp/allmut.out) unexpected"
+ls mutants/*.patch | xargs -P 12 -I{} bash -c 'run {}' | sort | tee /tmp/allmut.res | grep -v '^OK' ; echo "$(grep -c '^OK' /tmp/allmut.res) ok, $(grep -c '^BAD' /tmp/allmut.res) unexpected"
